@@ -90,6 +90,7 @@ fn real_main() {
                 cross_every: arg(&args, "--cross-every").and_then(|s| s.parse().ok()).unwrap_or(10),
                 directed_limit: arg(&args, "--directed-limit").and_then(|s| s.parse().ok()),
                 no_floor: args.iter().any(|a| a == "--no-floor"),
+                small: args.iter().any(|a| a == "--miri-small"),
             };
             let o = check::run_check(&cfg);
             if o.new_violations > 0 {
